@@ -558,7 +558,8 @@ func (m *Mutex) Unlock() {
 		m.held = false
 		m.hist = append(m.hist, fmt.Sprintf("unlock(uncontrolled,aborted=%v,g=%d)", ab, goid()))
 		s.mu.Unlock()
-		if ab && wasHeld {
+		if wasHeld { // taken virtually (under this or an earlier scheduler): the real lock was never taken
+			_ = ab
 			return
 		}
 	} else if m.held {
@@ -621,7 +622,8 @@ func (rw *RWMutex) Unlock() {
 		was := rw.writer
 		rw.writer = false
 		s.mu.Unlock()
-		if ab && was {
+		if was { // taken virtually (under this or an earlier scheduler): the real lock was never taken
+			_ = ab
 			return
 		}
 	} else if rw.writer {
@@ -661,7 +663,8 @@ func (rw *RWMutex) RUnlock() {
 			rw.readers--
 		}
 		s.mu.Unlock()
-		if ab && was {
+		if was { // taken virtually (under this or an earlier scheduler): the real lock was never taken
+			_ = ab
 			return
 		}
 	} else if rw.readers > 0 {
